@@ -139,6 +139,9 @@ func (ex *Exec) inRepoBody(fn *ssa.Function) bool { return fn.Blocks != nil && e
 
 func isRepoClass(class string) bool {
 	c := strings.TrimPrefix(class, "G:")
+	if strings.HasPrefix(c, "$") {
+		return true // ghost globals belong to the specification of the repository
+	}
 	for _, p := range []string{"proxy.", "proxycore.", "parser.", "codecs.", "astra."} {
 		if strings.HasPrefix(c, p) {
 			return true
@@ -193,12 +196,50 @@ func carriesCallback(args []Value) bool {
 	return false
 }
 
+// escapeArgs records repo-typed objects handed to code without a contract: that code (now or later,
+// it may keep the pointer) can write them.
+func (ex *Exec) escapeArgs(st *State, args []Value) {
+	add := func(class string) {
+		for _, e := range st.Escaped {
+			if e == class {
+				return
+			}
+		}
+		st.Escaped = append(st.Escaped, class)
+	}
+	for _, a := range args {
+		switch x := a.(type) {
+		case *PtrV:
+			if x.Root == RObj && isRepoClass(x.Class) {
+				add(x.Class)
+			}
+		case IfaceV:
+			if x.Tag.IsInt() {
+				if t := tags.byTag[x.Tag.Int.Int64()]; t != nil {
+					if pt, ok := under(t).(*types.Pointer); ok && isRepoClass(classOf(pt.Elem())) {
+						add(classOf(pt.Elem()))
+					}
+				}
+			}
+		}
+	}
+}
+
 func (ex *Exec) unknownCall(st *State, fr *Frame, what string, sig *types.Signature, args []Value, dst ssa.Value, repo bool) {
 	ex.note("havoc: " + what)
 	if repo || carriesCallback(args) {
 		ex.havocAll(st, true)
 	} else {
+		ex.escapeArgs(st, args)
 		ex.havocAll(st, false)
+		for _, e := range st.Escaped {
+			for class := range st.Heap {
+				if classMatches(class, e) || strings.HasPrefix(class, e+".") {
+					st.havocClass(class)
+				}
+			}
+			st.HavPrefix = append(st.HavPrefix, e+".")
+		}
 	}
 	nf := Fresh("hi", SInt)
 	st.assume(Le(st.Frontier, nf))
@@ -225,6 +266,21 @@ func (ex *Exec) applyContract(st *State, fr *Frame, sp *FuncSpec, fn *ssa.Functi
 		st.assume(t)
 	}
 	old := st.snapshotFull()
+	for _, name := range sp.Escapes {
+		if tv, ok := env.vars[name]; ok {
+			ex.escapeArgs(st, []Value{tv.V})
+		}
+	}
+	if sp.ModEscaped {
+		for _, e := range st.Escaped {
+			for class := range st.Heap {
+				if classMatches(class, e) || strings.HasPrefix(class, e+".") {
+					st.havocClass(class)
+				}
+			}
+			st.HavPrefix = append(st.HavPrefix, e+".")
+		}
+	}
 	// frame
 	switch {
 	case sp.ModNone:
@@ -235,7 +291,8 @@ func (ex *Exec) applyContract(st *State, fr *Frame, sp *FuncSpec, fn *ssa.Functi
 			ex.havocLvalue(st, fr, env, m, pos)
 		}
 	}
-	if !sp.ModNone {
+	{
+		// the callee may allocate even when it modifies nothing
 		nf := Fresh("hi", SInt)
 		st.assume(Le(st.Frontier, nf))
 		st.Frontier = nf
